@@ -60,4 +60,21 @@ Predict(cwd, out, root, g) ==
   LET loc == At(cwd, Target(out, root, g))
       gf  == At(cwd, g)
   IN IF IsPrefixSeq(gf, loc) THEN [outcome |-> "err", at |-> <<>>] ELSE [outcome |-> "ok", at |-> loc]
+
+(***************************************************************************)
+(* Directory processing (Settings::process_dir, rcomp <dir>): the tree     *)
+(* under the root dir is walked; a path whose text contains one of the     *)
+(* exclusion patterns is skipped (a directory with everything below it),   *)
+(* every other *.rustemo file is processed with root dir = the root of     *)
+(* the walk, so its output keeps its relative place.  A file is given as   *)
+(* the sequence of its components below the root, each component as        *)
+(* [n |-> name, x |-> its text contains a pattern]; rootx says the same    *)
+(* for the text of the root itself.                                        *)
+(***************************************************************************)
+Skipped(f, rootx) == rootx \/ \E k \in 1 .. Len(f) : f[k].x
+NamesOf(f) == [k \in 1 .. Len(f) |-> f[k].n]
+\* the set of directories (below the case directory) that hold a generated parser
+DirPredict(root, out, files, rootx) ==
+  {(IF out = None THEN root.c ELSE out.c) \o SubSeq(NamesOf(files[k]), 1, Len(files[k]) - 1)
+     : k \in {j \in 1 .. Len(files) : ~Skipped(files[j], rootx)}}
 =============================================================================
